@@ -70,9 +70,16 @@ def build():
     r = run(["go", "build", "-tags", "verif", "-o", out + "/", "./cmd/..."], cwd=gosrc, env=env)
     if r.returncode != 0:
         raise Broken("go build of /repo failed:\n" + r.stdout)
-    # harness module: keep go.sum in step with the repository
-    shutil.copyfile(os.path.join(gosrc, "go.sum"), os.path.join(HARNESS, "go.sum"))
-    r = run(["go", "build", "-tags", "verif", "-o", out + "/", "./cmd/..."], cwd=HARNESS, env=env)
+    # harness module: built from a scratch copy whose go.mod points at the repository under test
+    hsrc = sub("harness-src")
+    shutil.rmtree(hsrc)
+    shutil.copytree(HARNESS, hsrc, ignore=shutil.ignore_patterns("go.sum"))
+    gm = open(os.path.join(hsrc, "go.mod")).read()
+    gm = re.sub(r"(?m)^replace github.com/hknutzen/Netspoc-Approve/go => .*$",
+                "replace github.com/hknutzen/Netspoc-Approve/go => " + gosrc, gm)
+    open(os.path.join(hsrc, "go.mod"), "w").write(gm)
+    shutil.copyfile(os.path.join(gosrc, "go.sum"), os.path.join(hsrc, "go.sum"))
+    r = run(["go", "build", "-tags", "verif", "-o", out + "/", "./cmd/..."], cwd=hsrc, env=env)
     if r.returncode != 0:
         raise Broken("go build of harness failed:\n" + r.stdout)
     _built = out
@@ -292,7 +299,10 @@ class Report:
         }
         if self.notes:
             ev["notes"] = self.notes
-        with open(os.path.join(EVID, self.prop + ".json"), "w") as f:
+        evpath = os.path.join(EVID, self.prop + ".json")
+        if os.environ.get("VERIF_NO_EVIDENCE"):     # runs against a scratch copy of the repository (seeded changes)
+            evpath = os.path.join(scratch(), self.prop + ".json")
+        with open(evpath, "w") as f:
             json.dump(ev, f, indent=1, sort_keys=True, default=str)
             f.write("\n")
         if self.violations:
